@@ -32,7 +32,9 @@ type Options struct {
 	// CommSeed, if non-zero, seeds the ed25519 communication keys separately from the mnemonics
 	// (reinitialisation: same machines, fresh communication keys).
 	CommSeed uint64
-	WorkRoot string // default $VERIF_WORK or /verif/work
+	// Mnemonics, if given, override the derived ones (recorded ceremonies).
+	Mnemonics []string
+	WorkRoot  string // default $VERIF_WORK or /verif/work
 }
 
 type World struct {
@@ -87,7 +89,7 @@ func NewWorld(opt Options) (*World, error) {
 		if opt.NoCold && !opt.UseLevelDB {
 			dir = ""
 		}
-		n, err := NewNode(i, name, opt.Seed, w.Board, NodeOpts{UseLevelDB: opt.UseLevelDB, Dir: dir, CommSeed: opt.CommSeed})
+		n, err := NewNode(i, name, opt.Seed, w.Board, NodeOpts{UseLevelDB: opt.UseLevelDB, Dir: dir, CommSeed: opt.CommSeed, Mnemonic: mnemonicAt(opt.Mnemonics, i)})
 		if err != nil {
 			w.Close()
 			return nil, err
@@ -359,7 +361,7 @@ func (w *World) Run(policy RunPolicy, maxSteps int) (int, bool) {
 		// enabled set after 2 refusals (it stays pending in the pool).
 		var en []Action
 		for _, a := range acts {
-			if a.Kind == "op" && failed[a.Op.ID] >= 2 {
+			if a.Kind == "op" && failed[fmt.Sprint(a.Node, "/", a.Op.ID)] >= 2 {
 				continue
 			}
 			en = append(en, a)
@@ -374,7 +376,7 @@ func (w *World) Run(policy RunPolicy, maxSteps int) (int, bool) {
 		if a.Kind == "op" {
 			n := w.Nodes[a.Node]
 			if err := w.HandleOp(n, a.Op); err != nil {
-				failed[a.Op.ID]++
+				failed[fmt.Sprint(a.Node, "/", a.Op.ID)]++
 				w.tracef("%s op %s refused: %v", n.Name, a.Op.Type, err)
 			}
 			if w.AfterStep != nil {
@@ -404,4 +406,11 @@ func SignMsg(n *Node, round string, event string, data []byte, recipient string)
 	m := storage.Message{DkgRoundID: round, Event: event, Data: data, SenderAddr: n.Name, RecipientAddr: recipient}
 	m.Signature = signEd(n, m.Bytes())
 	return m
+}
+
+func mnemonicAt(m []string, i int) string {
+	if i < len(m) {
+		return m[i]
+	}
+	return ""
 }
